@@ -5,7 +5,7 @@ Exit codes of a check: 0 = property held on everything explored (KNOWN-FINDING l
 """
 import json, os, re, subprocess, sys, time, hashlib, shutil
 
-VERIF = "/verif"
+VERIF = os.path.dirname(os.path.dirname(os.path.abspath(__file__)))   # /verif, or a snapshot of it (vp run)
 REPO = "/repo"
 SPEC = os.path.join(VERIF, "spec")
 WORK = os.path.join(VERIF, "work")
